@@ -1,5 +1,6 @@
 """C05 - rollback restores the exact LP state (checkpoint restore + coast forward)."""
 from props import runlib
+from props import alloc_C05
 
 THEOREMS = ["RootSim.C05LP.rollback_exact", "RootSim.C05LP.run_exact", "RootSim.C05LP.silent_no_sends",
             "RootSim.C05LP.rollback_after_fossil_exact", "RootSim.LP.forward_inv", "RootSim.LP.checkpoint_inv",
@@ -7,6 +8,10 @@ THEOREMS = ["RootSim.C05LP.rollback_exact", "RootSim.C05LP.run_exact", "RootSim.
 
 
 def run(ctx):
+    # allocator level (work package ALLOC): model of buddy.c/multi.c/ckpt.c, API-level correspondence
+    alloc_C05.run(ctx)
+    alloc_cov = dict(ctx.coverage)
+    # LP level: model of process.c/fossil.c, full-run re-execution
     ctx.trusted += ["sequentially consistent execution under the token scheduler (one worker runs between two hook points)",
                     "LP-level model: a checkpoint is the state itself; byte-exactness of the allocator's checkpoint/restore is the allocator-level part"]
     ctx.assumptions += ["V1: handlers are deterministic functions of (LP, state, event) touching only rollbackable memory and the library RNG"]
@@ -18,3 +23,4 @@ def run(ctx):
         ctx.coverage["rule"] = ("seeded GenModel instances x thread counts x checkpoint intervals x GVT periods x schedules; "
                                 "non-trivial = rollbacks whose restored state digest was checked against the digest recorded when "
                                 "that history position was first reached (S oracle) and against the Lean re-execution (K)")
+    ctx.coverage["allocator_level"] = {k: v for k, v in alloc_cov.items() if k in ("evaluations", "distinct_nontrivial", "rule", "input_distribution", "correspondence")}
